@@ -1,6 +1,7 @@
 use super::ldap::{LdapBoundToken, LdapSession};
 use crate::credential::{softlock::CredSoftLock, Credential};
 use crate::idm::account::Account;
+use crate::idm::accountpolicy::ResolvedAccountPolicy;
 use crate::idm::application::{
     LdapApplications, LdapApplicationsReadTransaction, LdapApplicationsWriteTransaction,
 };
@@ -29,7 +30,9 @@ use crate::idm::serviceaccount::ServiceAccount;
 use crate::prelude::*;
 use crate::server::keys::KeyProvidersTransaction;
 use crate::server::DomainInfo;
-use crate::utils::{password_from_random, readable_password_from_random, uuid_from_duration, Sid};
+use crate::utils::{
+    password_from_random, readable_password_from_random, utf8_len, uuid_from_duration, Sid,
+};
 use crate::value::{Session, SessionState};
 use compact_jwt::{Jwk, JwsCompact};
 use concread::bptree::{BptreeMap, BptreeMapReadTxn, BptreeMapWriteTxn};
@@ -1801,17 +1804,28 @@ impl IdmServerProxyWriteTransaction<'_> {
     fn check_password_quality(
         &mut self,
         cleartext: &str,
+        resolved_account_policy: &ResolvedAccountPolicy,
         related_inputs: &[&str],
     ) -> Result<(), OperationError> {
         // password strength and badlisting is always global, rather than per-pw-policy.
-        // pw-policy as check on the account is about requirements for mfa for example.
-        if cleartext.len() < PW_SFA_MIN_LENGTH_NIST as usize {
+        // The length limits come from the account's policy. Unix PW's are a single factor,
+        // so the minimum is never below the single factor minimum.
+        let pw_min_length = resolved_account_policy
+            .pw_min_length()
+            .max(PW_SFA_MIN_LENGTH_NIST);
+        let pw_max_length = resolved_account_policy
+            .pw_max_length()
+            .min(PW_MAX_LENGTH_NIST);
+
+        let pw_graphemes = utf8_len(cleartext);
+
+        if pw_graphemes < pw_min_length as usize {
             return Err(OperationError::PasswordQuality(vec![
-                PasswordFeedback::TooShort(PW_SFA_MIN_LENGTH_NIST),
+                PasswordFeedback::TooShort(pw_min_length),
             ]));
-        } else if cleartext.len() > PW_MAX_LENGTH_NIST as usize {
+        } else if pw_graphemes > pw_max_length as usize {
             return Err(OperationError::PasswordQuality(vec![
-                PasswordFeedback::TooLong(PW_MAX_LENGTH_NIST),
+                PasswordFeedback::TooLong(pw_max_length),
             ]));
         };
 
@@ -1939,13 +1953,13 @@ impl IdmServerProxyWriteTransaction<'_> {
         &mut self,
         pce: &UnixPasswordChangeEvent,
     ) -> Result<(), OperationError> {
-        // Get the account
-        let account = self
+        // Get the account, and the policy that applies to it.
+        let (account, resolved_account_policy) = self
             .qs_write
             .internal_search_uuid(pce.target)
             .and_then(|account_entry| {
                 // Assert the account is unix and valid.
-                Account::try_from_entry_rw(&account_entry, &mut self.qs_write)
+                Account::try_from_entry_with_policy(&account_entry, &mut self.qs_write)
             })
             .map_err(|e| {
                 admin_error!("Failed to start set unix account password {:?}", e);
@@ -2003,11 +2017,15 @@ impl IdmServerProxyWriteTransaction<'_> {
         // If we got here, then pre-apply succeeded, and that means access control
         // passed. Now we can do the extra checks.
 
-        self.check_password_quality(pce.cleartext.as_str(), account.related_inputs().as_slice())
-            .map_err(|e| {
-                admin_error!(?e, "Failed to checked password quality");
-                e
-            })?;
+        self.check_password_quality(
+            pce.cleartext.as_str(),
+            &resolved_account_policy,
+            account.related_inputs().as_slice(),
+        )
+        .map_err(|e| {
+            admin_error!(?e, "Failed to checked password quality");
+            e
+        })?;
 
         // And actually really apply it now.
         self.qs_write.modify_apply(mp).map_err(|e| {
